@@ -98,6 +98,12 @@ func RunCase(c *caseT) (string, *hx.RunResult, error) {
 
 // Replay is the hx.Replayer for Gen_MainLoop exports.
 func Replay(raw json.RawMessage) hx.Outcome {
+	var probe struct {
+		Fam string `json:"fam"`
+	}
+	if json.Unmarshal(raw, &probe) == nil && probe.Fam == "cli" {
+		return replayCLI(raw)
+	}
 	var c caseT
 	if err := json.Unmarshal(raw, &c); err != nil {
 		return hx.Outcome{Skipped: true, Note: "bad case: " + err.Error()}
